@@ -1,12 +1,16 @@
 from . import common as K
 
-TITLE = "Python-binding array routines: missing-value taint, division guards, sibling agreement, clamping and oob fill, per-base form"
+TITLE = "Python-binding array routines: bin arithmetic, clamping, out-of-bounds fill, missing-value taint, division guards, sibling agreement"
 EXPLANATION = (
-    "The `missing` parameter is shown to flow only into output fills, unwrap_or defaults, the final NaN replacement and the output "
-    "allocation (never into a scratch accumulator); every mean division by a covered-base count is guarded; bins/zoom siblings share their "
-    "bin bookkeeping and both flush blocks; the drivers query [max(start,0), min(end,length)) and write the out-of-bounds bins after the "
-    "data, identically for bigWig and bigBed; per-base routines are NaN-seeded and replace NaN by `missing` at the end.")
-UNDECIDED = "exact bin statistics for non-integral bin widths (floating-point bin edges truncated to integers)."
-ASSUMPTIONS = ["f64::min/max ignore a NaN operand", K.A_PRED]
-OBLIGATIONS = [K.MISSING_TAINT, K.DIV_GUARDS, K.BIN_SIBS, K.DRIVERS, K.PER_BASE]
+    "Bin bookkeeping is exact integer arithmetic: bin_bound/bin_of are evaluated from their source for every small (len, bins, pos) and shown to tile "
+    "the range, give k*w for integral widths and assign every base to the bin whose span contains it; the four bin routines clamp each item to the "
+    "range, skip items without a base in it (range queries also return touching items), index bins only through bin_of and span them only through "
+    "bin_bound; fill_out_of_bounds is evaluated for every small (start, end, length, bins) and marks exactly the bins holding a base outside the "
+    "chromosome with all indices in range; the drivers query [max(start,0), max(min(end,length),0)) and fill oob after the data, identically for "
+    "bigWig and bigBed; per-base routines are NaN-seeded, the bigBed one clamps entries, NaN becomes `missing`; `missing` flows only into output "
+    "fills and defaults; every mean division by a covered count is guarded; NaN->0 seeding is confined to the mean in the bigBed zoom routine.")
+UNDECIDED = ("the accumulation inside a bin (overlap sizes, per-base depth vectors) is covered by sibling agreement and guards, not by a reference computation; "
+             "floating-point rounding of means; the Python layer (argument parsing, numpy views).")
+ASSUMPTIONS = ["f64::min/max ignore a NaN operand", K.A_PRED, "bigWig range queries clip values to the range (C03), bigBed and zoom queries do not"]
+OBLIGATIONS = [K.BIN_ARITH, K.BIN_ROUTINES, K.OOB_FILL, K.DRIVERS, K.PER_BASE, K.ZOOM_ENTRY_STAT, K.MISSING_TAINT, K.DIV_GUARDS, K.BIN_SIBS]
 OBLIGATIONS = OBLIGATIONS + [K.ARG_NAMES]
